@@ -1,3 +1,101 @@
-/- Model for C15: not written yet -/
+import HapVerif.Model.Sync
+/-!
+# C15 — Spec: each TLS host is served with the certificate its Ingress declares, else default
+
+Model side: `Sync.fullSync` (tls loop: first assignment wins, `crtOf` falls back to the default
+certificate on a missing / malformed / forbidden secret), `Sync.crtList` (`WriteFrontendMaps`: one
+line per host whose certificate is not the default one, after the default line `!*`) and
+`Sync.sniCrt` (HAProxy's crt-list lookup, trusted: exact filter, wildcard filter, first line).
+
+Spec, written from the property over the cluster state:
+
+* `tlsDecls w`: every `(host, certificate)` declared in `spec.tls`, first-created Ingress first
+  (creation time, then namespace/name; blocks and hosts as listed); the certificate is the one of
+  the Secret named by the block, read from the namespace of the Ingress, `default` when the name is
+  empty, the Secret is missing, has no `tls.crt`/`tls.key`, or lives in another namespace without
+  permission.
+* `specCrt w sni`:
+  1. the name is the host of a tls declaration: the certificate of the FIRST declaration;
+  2. else the name is a host of some rule (a host without tls entry): the default certificate;
+  3. else (a name no Ingress mentions) a wildcard host `*.rest` with a tls declaration answers with
+     the certificate of its first declaration; else the default certificate.
+  Clause 1 with a failing secret and clause 2 say "default, never another tenant's".
+-/
 namespace HapVerif.C15
+open HapVerif.Sync
+open HapVerif.C04 (Str lower)
+
+/-- `(host, certificate)` of every tls declaration, in processing order -/
+def tlsDecls (w : World) : List (Str × Crt) :=
+  (sortIngs (w.ings.filter (·.valid))).flatMap fun i =>
+    i.tls.flatMap fun b => b.hosts.map fun h => (h, crtOf w i.ns b.secret)
+
+/-- certificate of the first tls declaration of a host -/
+def declaredCrt (w : World) (h : Str) : Option Crt := ((tlsDecls w).find? (·.1 = h)).map (·.2)
+
+/-- the name is the host of a rule of an Ingress of this controller -/
+def isRuleHost (w : World) (h : Str) : Bool :=
+  (w.ings.filter (·.valid)).any fun i => i.rules.any fun r => r.host = h
+
+def specCrt (w : World) (sni : Str) : Crt :=
+  let s := lower sni
+  match declaredCrt w s with
+  | some c => c
+  | none =>
+    if isRuleHost w s then .dflt else
+    match wildOf s with
+    | none => .dflt
+    | some wc => (declaredCrt w wc).getD .dflt
+
+/-- the inputs on which the code before repair c836d74 violated the Spec (kept for the oracle's
+signature and the historical witness): the name is a declared host (tls entry or rule) that ends up
+with the default certificate while a wildcard host above it has its own certificate -/
+def wildcardCaptures (w : World) (sni : Str) : Bool :=
+  let s := lower sni
+  (declaredCrt w s = some .dflt || (declaredCrt w s = none && isRuleHost w s)) &&
+  match wildOf s with
+  | none => false
+  | some wc => (match declaredCrt w wc with | some c => c ≠ .dflt | none => false)
+
+/-- hypotheses on the tls hosts: lower case (Kubernetes validates host names) and not the reserved `<default>` -/
+def tlsHostOk (h : Str) : Bool := lower h = h && h ≠ dfltHost
+
+def WFTls (w : World) : Bool := (tlsDecls w).all fun d => tlsHostOk d.1
+
+/-- SNI names are host names: they do not start with `*` -/
+def WFSni (sni : Str) : Bool := sni.head? ≠ some '*'
+
+/-- rule hosts are lower case as well -/
+def WFHosts (w : World) : Bool :=
+  (w.ings.filter (·.valid)).all fun i => i.rules.all fun r => lower r.host = r.host
+
+/-- the certificate served for an SNI name by the generated crt-list -/
+def served (w : World) (sni : Str) : Crt := sniCrt (crtList (fullSync w)) sni
+
+/-- the same before repair c836d74 (historical witness) -/
+def servedBefore (w : World) (sni : Str) : Crt := sniCrt (crtListBefore (fullSync w)) sni
+
+/-! ## oracle on the implementation's projection -/
+
+def checkSni (w : World) (sni : Str) (got : Crt) : Option String :=
+  if got = specCrt w sni then none
+  else if wildcardCaptures w sni then some "wildcard-certificate-for-host-without-own-certificate"
+  else match got with
+    | .dflt => some "declared-certificate-not-served"
+    | .secret ns name v =>
+      if (tlsDecls w).any (fun d => match d.2 with | .secret a b _ => a = ns ∧ b = name | .dflt => false) then
+        (match specCrt w sni with
+         | .secret a b v' => if a = ns ∧ b = name ∧ v ≠ v' then some "stale-certificate-version" else some "other-tenant-certificate"
+         | .dflt => some "other-tenant-certificate")
+      else some "undeclared-certificate"
+
+/-- replacing the content of a secret: the new content version -/
+def setSecretVersion (w : World) (ns name : Str) (v : Nat) : World :=
+  { w with secs := w.secs.map fun s => if s.ns = ns ∧ s.name = name then { s with version := v } else s }
+
+/-- the certificate after the replacement of the content of secret `ns/name` -/
+def rot (ns name : Str) (v : Nat) : Crt → Crt
+  | .dflt => .dflt
+  | .secret a b v' => if a = ns ∧ b = name then .secret a b v else .secret a b v'
+
 end HapVerif.C15
